@@ -121,8 +121,8 @@ def determinism_sample(world, focus, n, batch_seed):
     from . import kernel
     cls = kernel.get_world(world)
     idx = list(range(10 ** 6, 10 ** 6 + n))
-    a = [kernel.generated_run(cls, focus, kernel.run_seed(world, batch_seed, i))["digest"] for i in idx]
-    b = [kernel.generated_run(cls, focus, kernel.run_seed(world, batch_seed, i))["digest"] for i in idx]
+    a = [kernel.generated_run(cls, focus, kernel.run_seed(world + ":" + focus, batch_seed, i))["digest"] for i in idx]
+    b = [kernel.generated_run(cls, focus, kernel.run_seed(world + ":" + focus, batch_seed, i))["digest"] for i in idx]
     p = _child(["digests", world, focus, str(batch_seed), str(idx[0]), str(n)], hashseed=4242)
     if p.returncode != 0:
         raise RuntimeError("digest child failed: " + p.stderr[-2000:])
@@ -134,7 +134,7 @@ def determinism_sample(world, focus, n, batch_seed):
 def cmd_digests(world, focus, batch_seed, lo, n):
     from . import kernel
     cls = kernel.get_world(world)
-    print(json.dumps([kernel.generated_run(cls, focus, kernel.run_seed(world, batch_seed, i))["digest"]
+    print(json.dumps([kernel.generated_run(cls, focus, kernel.run_seed(world + ":" + focus, batch_seed, i))["digest"]
                       for i in range(lo, lo + n)]))
     return 0
 
@@ -314,7 +314,7 @@ def cmd_setup():
 def cmd_one(world, focus, index, batch_seed):
     from . import kernel
     cls = kernel.get_world(world)
-    seed = kernel.run_seed(world, batch_seed, index)
+    seed = kernel.run_seed(world + ":" + focus, batch_seed, index)
     res = kernel.generated_run(cls, focus, seed)
     print("seed", seed, "cfg", json.dumps(res["cfg"]))
     for st, o in zip(res["steps"], res["outcomes"]):
